@@ -147,7 +147,16 @@ def positions():
         return (f"CREATE TABLE {t} AS SELECT c1, c2 AS c3 FROM src1; INSERT INTO {t} SELECT x1, x2 FROM src2",
                 [("metadata", {"zz.other": ["q"]}), ("pair", ("<default>.src2.x1", ref + ".c1")), ("pair", ("<default>.src2.x2", ref + ".c3"))])
 
-    extra = [("session_star_chain", p_session_star_chain, True), ("session_positional_chain", p_session_positional_chain, True),
+    def p_default_schema_chain(sp, n):
+        # the configured default schema is an identifier too: a table written as <schema>.tabx and read as tabx under DEFAULT_SCHEMA=<schema, same spelling>
+        # is one entity (unquoted spellings only: the setting is a bare name)
+        if sp[1] is not None:
+            return p_chain(sp, 1)
+        scm, scm_ref = spell("scm", *sp)
+        return (f"INSERT INTO {scm}.tabx SELECT c1 FROM src1; INSERT INTO fin1 SELECT c1 FROM tabx",
+                [("default_schema", scm), ("path", [scm_ref + ".src1.c1", scm_ref + ".tabx.c1", scm_ref + ".fin1.c1"]), ("intermediate_table", scm_ref + ".tabx")])
+
+    extra = [("default_schema_chain", p_default_schema_chain, False), ("session_star_chain", p_session_star_chain, True), ("session_positional_chain", p_session_positional_chain, True),
              ("star_qualifier", p_star_qualifier, True), ("partial_qualifier", p_partial_qualifier, True),
              ("partial_star_qualifier", p_partial_star_qualifier, True), ("star_chain_two_statements", p_star_chain, True),
              ("cte_name_as_qualifier", p_cte_qualifier, False), ("derived_alias_as_qualifier", p_derived_qualifier, False),
@@ -158,10 +167,16 @@ def positions():
 
 def evaluate(sql, dialect, checks):
     md = next((e for w, e in checks if w == "metadata"), None)
+    dflt = next((e for w, e in checks if w == "default_schema"), None)
     try:
-        lr = observe.runner_of(sql, dialect, metadata=md)
-        S, T, I = [str(t) for t in lr.source_tables], [str(t) for t in lr.target_tables], [str(t) for t in lr.intermediate_tables]
-        paths = [[str(c) for c in p] for p in lr.get_column_lineage()]
+        import contextlib
+
+        from sqllineage.config import SQLLineageConfig
+
+        with (SQLLineageConfig(DEFAULT_SCHEMA=dflt) if dflt else contextlib.nullcontext()):
+            lr = observe.runner_of(sql, dialect, metadata=md)
+            S, T, I = [str(t) for t in lr.source_tables], [str(t) for t in lr.target_tables], [str(t) for t in lr.intermediate_tables]
+            paths = [[str(c) for c in p] for p in lr.get_column_lineage()]
     except Exception as e:  # noqa
         return {"what": "raises", "exc": observe.exc_name(e), "msg": str(e)[:200]}
     for what, exp in checks:
